@@ -128,6 +128,8 @@ class Gen:
         if name in ('ABS', 'INT', 'SIGN', 'SQRT', 'EXP', 'LN', 'LOG10', 'EVEN', 'ODD',
                     'SIN', 'COS', 'TAN', 'ASIN', 'ACOS', 'ATAN', 'SINH', 'COSH', 'TANH'):
             v = self.number()
+            if name in ('INT', 'EVEN', 'ODD', 'ABS', 'SIGN') and r.random() < 0.08:
+                v = r.choice((1e20, -1e25, 1e19, 3e300))     # beyond 64-bit integers
             if name in ('ASIN', 'ACOS') and isinstance(v, float) and r.random() < 0.7:
                 v = r.choice((0.0, 0.5, -0.5, 1.0, -1.0, 0.3, 0.1))
             if name in ('EXP', 'SINH', 'COSH') and isinstance(v, float) and abs(v) > 700:
